@@ -98,6 +98,105 @@ def e2_obligation():
     return res
 
 
+def tail_obligation():
+    """The whole tail of get_code after label handling (version note + statistics + result dict) on
+    texts of 0..3 abstract lines with symbolic lengths: reported numbers vs the structure of the final
+    text.  Robust against re-ordering of those statements."""
+    from ..e2 import AbsLine
+
+    src = (E.PKG_DIR / "generate_code.py").read_text()
+    tree = ast.parse(src)
+    tail = None
+    for node in ast.walk(tree):
+        if isinstance(node, ast.FunctionDef) and node.name == "get_code":
+            for i, st in enumerate(node.body):
+                if isinstance(st, ast.If) and "remove_labels" in ast.unparse(st.test):
+                    tail = node.body[i + 1:]
+    res = dict(result=None, cases=0, counterexample=None)
+    if not tail:
+        res["result"] = "extraction_failed"
+        return res
+    fn = ast.FunctionDef(name="tail", args=ast.arguments(posonlyargs=[], args=[ast.arg("self"), ast.arg("s"), ast.arg("options"), ast.arg("_version")], kwonlyargs=[], kw_defaults=[], defaults=[]),
+                         body=list(tail) + [ast.Return(ast.Attribute(ast.Attribute(ast.Name("self", ast.Load()), "data", ast.Load()), "result", ast.Load()))],
+                         decorator_list=[], type_params=[])
+    m0 = ast.Module(body=[fn], type_ignores=[])
+    ast.fix_missing_locations(m0)
+    mod = E._FStringRewriter().visit(ast.parse(ast.unparse(m0)))
+    ast.fix_missing_locations(mod)
+    ns = dict(len=E.vf_len, max=_vmax, min=_vmin, range=range, __vf_fstring__=E.vf_fstring, __vf_join__=E.vf_join, __vf_in__=E.vf_in)
+    exec(compile(mod, "<get_code tail>", "exec"), ns)
+    E.set_int_carrier("int")
+    try:
+        for ver in ("0.2.3", "0.1.dev1+gc5dd0fe04"):
+            for av in (True, False):
+                for nlines in (0, 1, 2, 3):
+                    lens = [z3.Int(f"n{i}") for i in range(nlines)]
+
+                    class _Data:
+                        result = None
+
+                    class _Self:
+                        def __init__(self):
+                            self.data = _Data()
+                            self.used_registers = AbsList(z3.Int("R"))
+
+                    class _Opt:
+                        append_version = av
+                        remove_labels = False
+
+                    class _Ver:
+                        __version__ = ver
+
+                    def run():
+                        for n in lens:
+                            E.ctx().assume(n >= 1)
+                        E.ctx().assume(z3.Int("R") >= 0)
+                        return ns["tail"](_Self(), E.VJoined("\n", [AbsLine(n) for n in lens]), _Opt(), _Ver())
+
+                    paths, c = E.explore(run)
+                    res["cases"] += len(paths)
+                    for pc, out, asserts in paths:
+                        if out[0] != "value" or not isinstance(out[1], dict):
+                            res["result"] = f"{out[0]}: {out[1]}"
+                            return res
+                        r = out[1]
+                        code = r.get("code")
+                        if isinstance(code, str):
+                            L = len(code.split("\n")) if code else 0
+                            true_bytes = z3.IntVal(len(code) + max(L - 1, 0))
+                        elif hasattr(code, "lines"):
+                            lines = code.lines
+                            L = len(lines)
+                            true_bytes = z3.IntVal(2 * max(L - 1, 0))
+                            for l in lines:
+                                true_bytes = true_bytes + (l.n + len(l.suffix) if hasattr(l, "n") else len(l))
+                        else:
+                            res["result"] = f"unexpected code object {type(code).__name__}"
+                            return res
+
+                        def term(v):
+                            return v.t if isinstance(v, E.SInt) else z3.IntVal(int(v))
+
+                        s = z3.Solver()
+                        s.add(*asserts)
+                        s.add(z3.Or(term(r.get("num_lines", -1)) != L, term(r.get("num_bytes", -1)) != true_bytes, term(r.get("num_registers", -1)) != z3.Int("R")))
+                        rr = str(s.check())
+                        if rr == "sat":
+                            m = s.model()
+                            res["result"] = "sat"
+                            res["counterexample"] = dict(version=ver, append_version=av, line_lengths=[m.eval(n, True).as_long() for n in lens],
+                                                         reported_bytes=str(m.eval(term(r.get("num_bytes", -1)), True)), true_bytes=str(m.eval(true_bytes, True)),
+                                                         reported_lines=str(m.eval(term(r.get("num_lines", -1)), True)), true_lines=L)
+                            return res
+                        if rr != "unsat":
+                            res["result"] = rr
+                            return res
+        res["result"] = "unsat"
+    finally:
+        E.set_int_carrier("bv")
+    return res
+
+
 def _vmax(*a):
     if any(isinstance(x, E.SInt) for x in a):
         t = [x.t if isinstance(x, E.SInt) else z3.IntVal(x) for x in a]
@@ -116,6 +215,25 @@ def _vmin(*a):
             r = z3.If(r <= y, r, y)
         return E.SInt(r)
     return min(*a)
+
+
+def _replay_tail(cex):
+    """Compile real programs until one shows reported != recounted statistics."""
+    hdr = "from stationeers_pytrapic.symbols import *\n"
+    cands = [
+        ("", dict(append_version=cex["append_version"])),
+        (hdr + 'p = SolarPanel(d0, alias="SOLAR_PANEL_ON_THE_NORTH_ROOF_OF_THE_BASE_STATION")\np.Horizontal = 1\np.Vertical = 2\n', dict(append_version=cex["append_version"])),
+        (hdr + "db.Setting = d0.Setting + d1.Setting\nd2.Setting = db.Setting * 2\n", dict(append_version=cex["append_version"], original_code_as_comment=True)),
+        (hdr + "db.Setting = 1\n", dict(append_version=cex["append_version"])),
+    ]
+    for src, o in cands:
+        cap = comp.compile_capture(src, **o)
+        if not cap.ok:
+            continue
+        nl, nb, _ = recount(cap.result["code"])
+        if cap.result.get("num_lines") != nl or cap.result.get("num_bytes") != nb:
+            return f"compile_code({src[-60:]!r}, {o}) reports lines={cap.result.get('num_lines')} bytes={cap.result.get('num_bytes')}, recount lines={nl} bytes={nb}"
+    return None
 
 
 REG_TOK = re.compile(r"^r(1[0-5]|[0-9])$")
@@ -182,7 +300,19 @@ def run(tier: str) -> int:
             path = e1.save_replay(PROP, dict(property=PROP, kind="statistics", obligation=ob, replayed=replayed))
             rep.violation(f"statistics formulas: {cex} {replayed or ''}", path)
     elif ob["result"] != "unsat":
-        rep.harness_errors.append(f"E2 statistics obligation: {ob['result']}")
+        rep.notes.append(f"note: abstract-text obligation not applicable to the current statements: {ob['result']}")
+    tl = tail_obligation()
+    if tl["result"] == "sat":
+        cex = tl["counterexample"]
+        # replay: a real program whose lines have (at least) these lengths
+        replayed = _replay_tail(cex)
+        path = e1.save_replay(PROP, dict(property=PROP, kind="statistics_tail", obligation=tl, replayed=replayed))
+        if replayed:
+            rep.violation(f"statistics of get_code: {cex} ; replayed: {replayed}", path)
+        else:
+            rep.notes.append(f"note: statistics counterexample {cex} did not replay on a real compile")
+    elif tl["result"] != "unsat":
+        rep.harness_errors.append(f"E2 get_code tail obligation: {tl['result']}")
     progs = [(f"fixed:{k}", v) for k, v in FIXED.items()] + [("empty", ""), ("comment_only", "# nothing\n")]
     n = 200 if tier == "thorough" else 30
     for sp in base.gen_specs(n, None, tier, salt=53):
@@ -192,7 +322,7 @@ def run(tier: str) -> int:
     vecs = comp.all_option_vectors()
     items = []
     for i, (name, src) in enumerate(progs):
-        vs = [dict(vecs[(i * 3 + j * 7) % 32], append_version=bool(j % 2), original_code_as_comment=(j == 2), generated_comments=(j == 3)) for j in range(32 if tier == "thorough" else 5)]
+        vs = [dict(vecs[(i * 3 + j * 7) % 32], append_version=bool(j & 1), original_code_as_comment=bool(j & 2), generated_comments=bool(j & 4)) for j in range(32 if tier == "thorough" else 8)]
         items.append(dict(name=name, sources=src, vectors=vs))
     results = harness.pmap(task, items)
     outputs = 0
@@ -213,6 +343,7 @@ def run(tier: str) -> int:
         checker_cmd="z3 (QF_LIA) on the obligation generated by vf/props/c17.py from generate_code.py of the current tree; recount by vf/props/c17.py:recount",
         trusted_base=["z3", "abstract text model (L lines, T characters)", "recount function"],
         e2=ob,
+        e2_tail=tl,
         samples=[dict(statements=ob["statements"], result=ob["result"], counterexample=ob["counterexample"])],
         outputs_recounted=outputs,
         programs=len(items),
